@@ -282,3 +282,31 @@ def run(ctx):
                 reads.append((fn, n))
     ctx.check("C20.R5", "gen_data reads no `default` attribute", not reads, reads[0][0].where(reads[0][1]) if reads else g.where(), f"{reads[0][0].qualname}: {norm(reads[0][1])}" if reads else "", "a default taken from the schema is in JSON form, not in the Python data form the writers and validate expect (bytes / fixed / decimal / nested records differ): the generated value does not conform")
 
+
+    ctx.rule("C20.R6", "attributes the specification makes optional are read with a fallback; the branch of a union is drawn from the union as given", floor=2)
+    OPTIONAL = {"scale", "namespace", "aliases", "doc", "default", "order", "logicalType"}
+    helpers = [g] + [x for x in g.mod.all_funcs if x is not g and any(isinstance(c, ast.Call) and isinstance(c.func, ast.Name) and c.func.id == x.name for c in ast.walk(g.node))]
+    bare = [(fn, n) for fn in helpers for n in ast.walk(fn.node) if isinstance(n, ast.Subscript) and isinstance(n.ctx, ast.Load) and isinstance(n.slice, ast.Constant) and n.slice.value in OPTIONAL]
+    ctx.check("C20.R6", "no bare subscript read of an optional schema attribute in the generator", not bare, bare[0][0].where(bare[0][1]) if bare else g.where(), f"{bare[0][0].qualname}: {norm(bare[0][1])}" if bare else "", "a valid schema may omit the attribute (e.g. a decimal without scale): generation raises KeyError for it")
+    # union arm: the list a branch index is drawn over and indexed into is the schema parameter itself
+    draws = [c for c in ast.walk(g.node) if isinstance(c, ast.Call) and norm(c.func) in ("random.randint", "random.randrange", "random.choice") and "len(" in norm(c) or (isinstance(c, ast.Call) and norm(c.func) == "random.choice")]
+    checked = 0
+    for c in draws:
+        facts = true_facts(cfg, cfg.node_of(c))
+        if not any("'union'" in x for x in facts):
+            continue
+        seqs = [x for x in ast.walk(c) if isinstance(x, ast.Call) and isinstance(x.func, ast.Name) and x.func.id == "len" and x.args] if norm(c.func) != "random.choice" else None
+        subj = (seqs[0].args[0] if seqs else None) if seqs is not None else (c.args[0] if c.args else None)
+        if subj is None:
+            continue
+        checked += 1
+        if isinstance(subj, ast.Name):
+            from .common import value_sources
+
+            srcs = value_sources(a, g, subj)
+            plain = bool(srcs) and all(k == "param" or (k == "expr" and isinstance(v, ast.Call) and norm(v.func) in ("cast", "typing.cast", "list", "tuple") and any(isinstance(y, ast.Name) and y.id == g.pos_params[0] for y in v.args)) for k, v in srcs)
+        else:
+            plain = norm(subj) == g.pos_params[0]
+        ctx.check("C20.R6", "a union's branch is drawn over all its branches", plain, g.where(c), f"gen_data: branch drawn over `{norm(subj)}` = {[k for k, _ in value_sources(a, g, subj)] if isinstance(subj, ast.Name) else ''}", "leaving branches out (e.g. never 'null') makes a recursive type generate without end, and some conforming shapes are never produced")
+    if checked == 0:
+        ctx.unrecognised("C20.R6", "union arm of gen_data", g.where(), "no random draw over the branches of a union found")
